@@ -137,7 +137,7 @@ impl Prop for C12 {
                     }
                 }
             }
-            if k == 0 && idx < 2 {
+            if out.sample.is_none() && idx < 32 {
                 out.sample = Some(json!({"carrier": carrier, "literal": lits.first().map(|l| l.text.clone()), "shape": lits.first().map(|l| l.shape.clone()), "config": cfg.short(), "output": short(&output, 300)}));
             }
         }
